@@ -62,6 +62,9 @@ pub struct NetCfg {
     pub cut_link: bool,
     /// Send Close to every session at the end and wait for the sessions to return.
     pub close_at_end: bool,
+    /// Bulk volume: this peer starts with a log of 1100-1300 operations (more than the 1028 slots
+    /// of a session's live-mode channel or the 1024 entries of a de-duplication buffer).
+    pub bulk_peer: Option<usize>,
 }
 
 pub struct SessionRec {
@@ -155,7 +158,7 @@ pub fn run_net(cfg: &NetCfg) -> NetOutcome {
     let mut initial: Vec<Vec<Op>> = vec![];
     let mut heads: Vec<(u32, Option<Hash>)> = vec![];
     for (i, k) in keys.iter().enumerate() {
-        let cnt = ctx::choose("net.initial_ops", cfg.initial_ops_max + 1);
+        let cnt = if cfg.bulk_peer == Some(i) { ctx::range("net.bulk_ops", 1100, 1300) } else { ctx::choose("net.initial_ops", cfg.initial_ops_max + 1) };
         let mut ops = vec![];
         let mut backlink = None;
         for seq in 0..cnt as u32 {
